@@ -348,26 +348,40 @@ CHECKS = {
              'wallet transaction that the backend answers as known/confirmed/rejected removes its unconfirmed children. Trusted: go/ast extractors '
              '(wallet.go branches, chain tables), the stub node, simchain, id projection. No axioms.'),
     "C16": dict(
-        text="Model Recovery/Recovery.v of BranchRecoveryState (ExtendHorizon counting invalid children, ReportFound, pruning) / recoverScopedAddresses (explicit "
-             "BatchIndex and batch[BatchIndex+1:]) / Resurrect / extendAddresses / addRelevantTx over an abstract chain, and of locateBirthdayBlock (left/right/mid "
-             "arithmetic, the 2 h delta in both directions). 9 theorems: for every invalid-child predicate, every scope set, every W, every batch size, every "
-             "birthday height and every list of interruption points with resurrect in between: if each scanned block pays, per branch, only valid indices whose "
-             "valid-rank is below rank(1 + highest index paid in EARLIER blocks) + W (and txids are distinct, no outpoint spent twice) then after recovery of a "
-             "fresh wallet every paid path is known and marked used, the recorded transactions are exactly (in chain order, once) those paying a wallet path or "
-             "spending an earlier unspent wallet output, the unspent set is the chain's ledger, each branch's next index is 1 + the highest paid index, synced-to is "
-             "the tip; C16_same_block_beyond_window_is_missed shows the 'earlier blocks' wording is exactly the hypothesis the code needs. Birthday search: for "
-             "every timestamp list and birthday the loop terminates on genesis or a block stamped at most birthday + 2h, hence (non-decreasing timestamps) not later "
-             "than any block stamped later than birthday + 2h. Tie to the code: real Wallet.recovery over simchain (real chain.BlockFilterer), random usage patterns "
-             "satisfying / violating the look-ahead by one index, W in {1,2,5,20}, all four default scopes, later spends of recovered outputs, chains crossing the "
-             "2000-block batch boundary, interrupted-and-resumed on a reopened wallet, locked and unlocked; VerifLocateBirthdayBlock on random monotone timestamp lists.",
-        note="'Ends with the correct balance' is proved end to end (C16_recovered_balance_is_ledger_balance): the chain is translated into a Tx universe and the recorded "
-             "transactions into the Confirm history applied by addRelevantTx; under the completeness hypotheses plus chain_txs_wf (ids are ranks, inputs in range, "
-             "positive amounts, coinbases without inputs) that history is chain-consistent for a well-formed universe, so by C01 the store's Balance(1, tip) equals "
-             "the ledger balance = the sum of the model's final unspent wallet outputs that are not immature coinbase outputs. Exercised only: locked vs unlocked "
-             "(the model has no lock state) and that the real CalculateBalance equals the store model's balance (C01's correspondence). Invalid children are "
-             "model-only (cannot be produced on real keys). 'A block that could pay the wallet' is read as 'stamped later than the searched birthday + 2h' (the stored "
-             "birthday is creation time minus 48 h); within the +-2h tolerance the search may return a block later than the first block stamped after the birthday "
-             "(C16_birthday_within_tolerance_not_first) - coded tolerance, not flagged. Trusted: path-to-address identification, simchain, walletenv. No axioms."),
+        text='Model Recovery/Recovery.v of BranchRecoveryState (ExtendHorizon counting invalid children, ReportFound, pruning) / recoverScopedAddresses '
+             '(explicit BatchIndex and batch[BatchIndex+1:]) / Resurrect / extendAddresses / addRelevantTx over an abstract chain, of locateBirthdayBlock '
+             '(left/right/mid arithmetic, the 2 h delta in both directions) and of the PRODUCTION entry (wstate, first_start, startup, startups: locate '
+             'the birthday block, store it, set synced-to to it, recover from synced-to + 1, resume on later starts). 18 theorems: for every invalid-child '
+             'predicate, scope set, W, batch size, birthday height and list of interruption points with resurrect in between: if each scanned block pays, '
+             'per branch, only valid indices whose valid-rank is below rank(1 + highest index paid in EARLIER blocks) + W (txids distinct, no outpoint '
+             'spent twice) then after recovery of a fresh wallet every paid path is known and marked used, the recorded transactions are exactly (in chain '
+             "order, once) those paying a wallet path or spending an earlier unspent wallet output, the unspent set is the chain's ledger, each branch's "
+             "next index is above every paid index, synced-to is the tip; C16_same_block_beyond_window_is_missed shows 'earlier blocks' is exactly the "
+             'hypothesis the code needs. Production entry: C16_first_sync_recovery_complete and C16_first_sync_balance_is_ledger_balance (a restored '
+             'wallet first started on a chain of length c0 where the search returns block b, then started again at later heights: the same conclusions '
+             'over blocks_after b), C16_recovery_run_is_fold_of_flushes, C16_run_scans_each_later_block_once_in_order (for any batch size the batches of '
+             'one run concatenated are exactly heights synced+1..best), C16_all_runs_scan_exactly_the_blocks_after, C16_first_scanned_block_not_late (with '
+             'non-decreasing timestamps b+1 is no later than any block stamped later than birthday + 2 h, also when the search ran on a truncated chain). '
+             'Birthday search: for every timestamp list and birthday the loop terminates on genesis or a block stamped at most birthday + 2h. Tie to the '
+             'code: 7 in 12 recovery cases enter the way production does - Wallet.SynchronizeRPC + ClientConnected through the real '
+             'handleChainNotifications -> birthdaySanityCheck -> syncWithChain(nil) -> locateBirthdayBlock / SetSyncedTo / SetBirthdayBlock / recovery / '
+             'rescan, interruptions reopen the wallet - the rest through the VerifRecovery hook; the REAL BitcoindClient.FilterBlocks and '
+             'RPCClient.FilterBlocks loops (never started clients over a loopback JSON-RPC node serving the simulated chain, GCS filters built with '
+             "btcutil) or the simulated backend's copy (evidence says which per case); usage patterns satisfying / violating the look-ahead by one index, "
+             'W in {1,2,5,20}, all four default scopes, later spends, chains crossing birthday + recoveryBatchSize +- 3, three timestamp shapes incl. the '
+             'first paying block right after the birthday block, locked and unlocked; a FilterBlocks call counter turns a livelock into a replayable '
+             'failure.',
+        note="'Ends with the correct balance' is proved end to end (C16_recovered_balance_is_ledger_balance): the chain is translated into a Tx universe "
+             'and the recorded transactions into the Confirm history applied by addRelevantTx; under the completeness hypotheses plus chain_txs_wf that '
+             "history is chain-consistent for a well-formed universe, so by C01 the store's Balance(1, tip) equals the ledger balance. BOUNDARY: "
+             'production never scans the located birthday block itself (it is genesis or stamped no later than the stored birthday + 2 h, i.e. not a block '
+             'that could pay the wallet); payments in it are not promised; the oracle demands every payment from the first block stamped later than '
+             'birthday + 2 h. Production-entry assumptions: W >= 1, a verified stored birthday block on later starts, no reorganisation between starts, '
+             "monotone timestamps. The correspondence is projected to what the theorems need: the implementation's next index >= the model's, every path "
+             'the model knows is known to the manager, Used flags exact, the birthday block ADMISSIBLE (on the chain; genesis or stamped <= birthday + 2 '
+             'h) rather than identical; recorded transactions, balance, unspent set and synced-to exact. Exercised only: locked vs unlocked (the model has '
+             "no lock state), the neutrino FilterBlocks loop is not run (same shape as btcd's). Invalid children are model-only. Trusted: path-to-address "
+             'identification, the simulated chain and its JSON-RPC node, walletenv. No axioms.'),
     "C04": dict(
         text='Model Addr/Taint.v: every value waddrmgr stores is a list of symbolic terms (Enc keyid t | Hash | Kdf | Clear atom | Cat | Const), atoms '
              'classed Secret, Passphrase, Sensitive or Public; 17 operations each yield their bucket writes and deletes transcribed from manager.go / '
@@ -409,23 +423,40 @@ CHECKS = {
              "wallet/import.go rejects it). Trusted additionally: the go/ast sealing-site reader and the harness's trial decryption (snacl of the "
              'repository). No axioms.'),
     "C08": dict(
-        text="Model Addr/MemDisk.v: database rows (account rows with name and next indices, name/id indices, last account, address and used sets, synced-to, the "
-             "block-hash window with MaxReorgDepth eviction, start block, birthday, birthday block) and memory (acctInfo cache with last addresses, address cache, "
-             "sync state, birthday); database transactions that commit, are aborted by the caller, are aborted as dry run (walletdb.ErrDryRunRollBack) or whose "
-             "commit fails, OnCommit closures running only on a successful commit; for each operation (NewAccount, RenameAccount, Next/ExtendAddresses, MarkUsed, "
-             "SetSyncedTo, SetBirthday, SetBirthdayBlock, Import*, all reads) WHEN memory changes relative to the write is transcribed. Proved, unbounded: "
-             "C08_outside_K - after every transaction boundary of every history outside the decidable pattern K the running manager answers every query of the "
-             "property's list exactly as `reopen disk` does; C08_rollback_does_not_advance_indices - a rolled-back transaction made of issuance and reads changes "
-             "neither the database nor any cached index, from any state; C08_next_issue_equals_restart - outside K_idx (a subset of K) the next committed issuance "
-             "returns and writes exactly what a restarted manager would; C08_dry_run_issuance; C08_refuted_at_K - one witness per trigger. The flag "
-             "'nextAddresses caches the read-back address before commit' is regenerated from scoped_manager.go (false after the fix). Tie to the code: real "
-             "waddrmgr on bbolt behind a wrapper that can abort or fail commits, plus the real wallet (NewAddress, NewChangeAddress, CreateSimpleTx incl. dry run); "
-             "after EVERY transaction the file is copied, opened with a fresh waddrmgr.Open, and both managers answer the full query set.",
-        note="PARTIAL: the equivalence is proved outside K and refuted inside. K = an aborted transaction holding rename, set-synced-to, set-birthday, extend, "
-             "import, or new-account followed by a read of it; or a committed transaction holding extend after next-addresses on the same branch, or "
-             "SetSyncedTo(nil). 14 (kind, site) pairs of K are recorded known findings (eager in-memory updates, same root cause as C10's); S4 (phantom address "
-             "after a rolled-back issuance) was repaired (fix: a362ebf). One key scope, manager unlocked, no watch-only accounts, fault-free database in the model. "
-             "Trusted: address<->path table derived with hdkeychain, bbolt. No axioms."),
+        text='Model Addr/MemDisk.v: database rows (account rows with name, next indices, address type and master-key fingerprint; name/id indices, last '
+             'account, address and used sets, synced-to, the block-hash window, start block, birthday, birthday block) and memory (acctInfo cache with '
+             'last addresses, the address cache as a map from address to the (type, fingerprint) its object recorded when built, sync state, birthday, '
+             'lock state, the derive-on-unlock queue); database transactions that commit, are aborted by the caller, are aborted as dry run or whose '
+             'commit fails; OnCommit closures run only on a successful commit. PARAMETERISED by three booleans read from the source into '
+             'Generated/AddrCache.v (nextAddresses caches its read-back; extend updates memory before commit; rename updates memory before commit): every '
+             'theorem is proved for all 8 values, so repairing an eager update turns a known finding into silence instead of an alarm. Operations: '
+             'NewAccount, RenameAccount, Next/ExtendAddresses (default and imported watch-only accounts: public derivation), MarkUsed, SetSyncedTo, '
+             'SetBirthday, SetBirthdayBlock, Import* with or without private key, Lock, Unlock (loads queued accounts), InvalidateAccountCache, all reads. '
+             '10 theorems, unbounded: C08_outside_K - after every transaction boundary of every history outside the decidable pattern K the running '
+             'manager answers every query exactly as a manager freshly opened on the database and brought to the same lock state; '
+             'C08_derivation_info_is_the_rows - outside K the address type and master-key fingerprint reported for any known address are those of its '
+             "account's row; C08_rollback_does_not_advance_indices; C08_next_issue_equals_restart and C08_index_queries_outside_K_idx (K_idx a subset of "
+             'K); C08_import_dry_run_outside_K (what wallet.ImportAccountDryRun does - a rolled-back import followed by its cache eviction - is outside '
+             'K); C08_dry_run_issuance; C08_refuted_at_K - 13 witnesses, the parameter-dependent ones exactly when the source is eager; '
+             'C08_model_assumptions_hold_in_source (next commits memory in its closure, rename covers both row kinds, extend records the fingerprint). Tie '
+             'to the code: real waddrmgr on bbolt behind a wrapper that can abort or fail commits, two scopes through one manager (projected per scope), '
+             'lock/unlock/invalidate in the alphabet, plus the real wallet (NewAddress, NewChangeAddress, CreateSimpleTx incl. dry run, ImportAccount, '
+             'ImportAccountDryRun, issuance from imported accounts); after EVERY transaction the file is copied, opened with a fresh waddrmgr.Open brought '
+             'to the same lock state, and both managers answer the full query set incl. DerivationInfo (scope, path, fingerprint) and PubKey bytes of '
+             "every address and last address. Any harness-side 'the model no longer follows the code' condition, or a start-up probe disagreeing with "
+             'Generated/AddrCache.v, FAILS the check.',
+        note='PARTIAL: the equivalence is proved outside K and refuted inside. K = an aborted transaction holding rename, set-synced-to, set-birthday, '
+             'extend, import, new-account followed by a read of it, or a cached reload of an evicted account; or a committed transaction holding extend '
+             'after next-addresses on the same branch, or SetSyncedTo(nil). 17 (kind, site) pairs of K are recorded KNOWN findings (eager in-memory '
+             "updates, same root cause as C10's), each identified by the operations with their outcomes and the transaction's fate "
+             '(`<Op>=<outcome>,…/rolled-back|committed`; consequences as `after:<root site>`), so a different divergence at the same operation is a new '
+             'VIOLATION. Two defects repaired: S4 phantom address after a rolled-back issuance (fix: a362ebf) and S14 extendAddresses dropping the '
+             'master-key fingerprint from the derivation path (fix: 7aeeade); replays run first from corpus/C08. Consequence inside K (observation): if an '
+             'address waiting for its key belongs to an account whose row was rolled back and whose cache entry was evicted, Unlock fails with '
+             'ErrAccountNotFound and the manager stays locked until restart. SetSyncedTo / SetBirthday / Import eagerness is not two-sided (repairing '
+             'those would alarm as a model mismatch). Two scopes are exercised by per-scope projection only (no theorem about the product). '
+             'ChangePassphrase, ConvertToWatchingOnly, NewScopedKeyManager are outside the alphabet; fault-free database in the model. Trusted: '
+             'address<->path table derived with hdkeychain, bbolt. No axioms.'),
     "C03": dict(
         text="Executable model Addr/Mgr.v of waddrmgr key derivation and private-key availability (disk rows, account and address caches, deriveOnUnlock, "
              "privKeyCache; symbolic HD keys in Addr/Keys.v with pub(ckd_priv k i) = ckd_pub(pub k) i by construction), parameterised by three facts regenerated "
